@@ -79,6 +79,81 @@ def _many_vars_case(job):
     return out
 
 
+ACCESS = ("direct", "dynamic", "byref")
+ALLOC = (None, 0, 1, 200)
+
+
+def access_case(job):
+    """Every variable is reached through one access path only (direct load/store, DynamicScratchVar.set_index + loads/stores, or passed by
+    reference to subroutines) and is automatically or explicitly numbered: still its own cell; duplicate requested ids are rejected."""
+    kinds, version, opts = job
+    from vf.core import use_repo
+    use_repo()
+    import pyteal as pt
+    from spec import avm
+    out = {"kinds": kinds, "version": version, "opts": opts, "problem": None}
+    sids = [sid for _, sid in kinds if sid is not None]
+    expect_reject = len(sids) != len(set(sids))
+    try:
+        vars_ = [pt.ScratchVar(pt.TealType.uint64, sid) if sid is not None else pt.ScratchVar(pt.TealType.uint64) for _, sid in kinds]
+        dyn = pt.DynamicScratchVar(pt.TealType.uint64)
+
+        @pt.Subroutine(pt.TealType.none)
+        def setref(v: pt.ScratchVar, x: pt.Expr):
+            return v.store(x)
+
+        @pt.Subroutine(pt.TealType.uint64)
+        def getref(v: pt.ScratchVar):
+            return v.load()
+        writes, reads = [], []
+        for i, ((access, sid), v) in enumerate(zip(kinds, vars_)):
+            val = pt.Int(100 + i)
+            if access == "direct":
+                writes.append(v.store(val)); reads.append(v.load())
+            elif access == "dynamic":
+                writes.append(pt.Seq(dyn.set_index(v), dyn.store(val))); reads.append(pt.Seq(dyn.set_index(v), dyn.load()))
+            else:
+                writes.append(setref(v, val)); reads.append(getref(v))
+        prog = pt.Seq(*writes, *[pt.Assert(rd == pt.Int(100 + i)) for i, rd in enumerate(reads)], pt.Approve())
+        kw = {"optimize": pt.OptimizeOptions(**opts)} if opts else {}
+        teal = pt.compileTeal(prog, pt.Mode.Application, version=version, **kw)
+        if expect_reject:
+            out["problem"] = "two variables requesting the same slot id were accepted"
+            return out
+        res = avm.run(teal, avm.Ctx(budget=10 ** 6))
+        if res.verdict != "approve":
+            out["problem"] = f"variables are not independent cells: {res.verdict} {res.detail}"
+        else:
+            for i, (_, sid) in enumerate(kinds):
+                if sid is not None and res.scratch.get(sid) != 100 + i:
+                    out["problem"] = f"explicitly requested slot {sid} holds {res.scratch.get(sid)} instead of {100 + i}"
+                    break
+    except Exception as e:
+        name = type(e).__name__
+        if name in ("TealInternalError", "TealInputError"):
+            if not expect_reject:
+                out["problem"] = f"rejected although the requested ids are distinct: {str(e)[:200]}"
+        else:
+            out["problem"] = f"exception {name}: {str(e)[:200]}"
+    return out
+
+
+def access_jobs(tier, seed):
+    import itertools
+    kinds = [(a, s) for a in ACCESS for s in ALLOC]
+    seqs = [list(p) for n in (1, 2) for p in itertools.product(kinds, repeat=n)]
+    triples = list(itertools.product(kinds, repeat=3))
+    if tier == "quick":
+        r = random.Random(seed)
+        triples = r.sample(triples, 260)
+    seqs += [list(t) for t in triples]
+    jobs = []
+    for i, ks in enumerate(seqs):
+        v, o = [(6, None), (8, None), (10, None), (10, {"scratch_slots": False}), (9, {"frame_pointers": False})][i % 5]
+        jobs.append((ks, v, o))
+    return jobs
+
+
 def limits(report):
     from vf.core import use_repo
     use_repo()
@@ -140,6 +215,12 @@ def run(report: Report, tier, seed):
     with ProcessPoolExecutor(max_workers=16) as ex:
         res = list(ex.map(many_vars_case, jobs, chunksize=2))
         fl = list(ex.map(frame_locals_case, [(n, v) for n in (1, 60, 127, 128, 129, 140) for v in (8, 10)]))
+        aj = access_jobs(tier, seed)
+        ar = list(ex.map(access_case, aj, chunksize=8))
+    abad = [r for r in ar if r["problem"]]
+    report.bounded.append(Bounded(function="compileTeal: variables reached through one access path only", contract="own cell whatever the access path (direct / DynamicScratchVar / by reference) and numbering (auto / explicit 0, 1, 200); duplicate requested ids rejected",
+                                  bound=f"all sequences of <= 2 variables over 3 access paths x 4 numberings, {'260 sampled' if tier == 'quick' else 'all 1728'} triples, versions 6..10 x option settings",
+                                  cases=len(ar), distinct_nontrivial=len(ar), failures=len(abad)))
     bad = [r for r in res if r["problems"]]
     fbad = [r for r in fl if r["problem"]]
     report.bounded.append(Bounded(function="compileTeal with n simultaneously live variables", contract="each variable returns the value last stored in it; explicit ids are the slots used (also through index() and DynamicScratchVar); more than 256 slots rejected",
@@ -152,6 +233,9 @@ def run(report: Report, tier, seed):
     for b in bad[:3]:
         report.violation(Violation(key=f"cells:{b['n']}:{b['version']}:{b['opts']}", what=f"{b['n']} variables, v{b['version']} {b['opts']}: {b['problems'][0]}"[:400],
                                    replay={"job": [b["n"], b["seed"], b["version"], b["opts"]]}, confirmed_native=True))
+    for b in abad[:3]:
+        report.violation(Violation(key=f"access:{b['kinds']}:{b['version']}", what=f"variables {b['kinds']} v{b['version']} {b['opts']}: {b['problem']}"[:400],
+                                   replay={"access": [b["kinds"], b["version"], b["opts"]]}, confirmed_native=True))
     for b in fbad[:2]:
         report.violation(Violation(key=f"framelocals:{b['n']}:{b['version']}", what=f"{b['n']} frame temporaries v{b['version']}: {b['problem']}"[:300],
                                    replay={"frame": [b["n"], b["version"]]}, confirmed_native=True))
@@ -163,6 +247,11 @@ def replay(data):
         out = many_vars_case(tuple(r["job"]))
         print(out["problems"])
         return 1 if out["problems"] else 0
+    if "access" in r:
+        a = r["access"]
+        out = access_case(([tuple(k) for k in a[0]], a[1], a[2]))
+        print(out)
+        return 1 if out["problem"] else 0
     out = frame_locals_case(tuple(r["frame"]))
     print(out)
     return 1 if out["problem"] else 0
